@@ -99,6 +99,11 @@ def census(tree, shapes):
 def check_program(h, res, tag, text, mode, shapes):
     rep = h.json("foldvisit", [mode], text)
     wit = {"op": "foldvisit", "mode": mode, "text": text, "tag": tag}
+    if rep.get("fail_swallowed"):
+        res.add("unlisted:fold-swallows-callback-error", {"callback_indices": rep["fail_swallowed"][:10], "of": rep.get("fail_points")}, wit)
+    if "fail_panic" in rep:
+        res.add("unlisted:fold-panic", {"panic": rep["fail_panic"]}, wit)
+    res.counters["fold error-injection points"] += rep.get("fail_points", 0)
     if "tree" not in rep:
         res.counters["not-parsed"] += 1
         return
@@ -190,7 +195,7 @@ def run(res):
     kinds = {k.split(".")[0] for k in shapes}
     res.cover["node_kinds_with_fields_seen"] = len(kinds)
     res.rule = ("trees of corpus, generated and PEP 695 programs and generated expressions (all-nodes-with-ranges build) plus %d directed constant-tuple programs; for each tree: "
-                "identity fold equality, one range callback per range-carrying node, visitor reach, optimiser vs reference rewrite, idempotence; the field-shape census lists which "
+                "identity fold equality, one range callback per range-carrying node, error injection (the callback fails at its k-th call, for every k of trees with at most 400 callbacks: the fold must return that error), visitor reach, optimiser vs reference rewrite, idempotence; the field-shape census lists which "
                 "optional fields were present/absent and which list lengths (0/1/many) occurred per node kind; a case is one program" % len(DIRECTED))
     res.assumptions = ["the generic dump is the independent walk of the tree"]
 
